@@ -251,10 +251,18 @@ type c16Stream struct {
 	msgs    [][]byte
 	pos     int
 	breakAt int
+	// stall: before it breaks the stream hangs for this long (or until the caller's deadline, whichever is first)
+	stall time.Duration
+	ctx   context.Context
 }
 
 func (s *c16Stream) Recv() (*pb.BinaryData, error) {
 	if s.breakAt >= 0 && s.pos >= s.breakAt {
+		if s.stall > 0 {
+			if err := simWait(s.ctx, s.stall); err != nil {
+				return nil, err
+			}
+		}
 		return nil, errors.New("stub: stream broken")
 	}
 	if s.pos >= len(s.msgs) {
@@ -343,7 +351,10 @@ func (st *c16Stub) Fetch(ctx context.Context, in *pb.FetchRequest, _ ...grpc.Cal
 		excuse(at, "entries reordered")
 		excuse(at+1, "entries reordered")
 	}
-	if o.Kind == "break" {
+	if o.Kind == "break" || o.Kind == "stall" {
+		if o.Kind == "stall" {
+			stream.stall, stream.ctx = 90*time.Second, ctx
+		}
 		stream.breakAt = o.At % (len(stream.msgs) + 1)
 		for i := stream.breakAt; i < len(ids); i++ {
 			excuse(i, "stream broke before the entry")
@@ -772,7 +783,7 @@ func GenC16(seed uint64, thorough bool) *C16Case {
 					ss = append(ss, o)
 					f := SOutcome{Kind: "ok", DelayMs: r.Intn(30)}
 					if r.Bool(failRate) {
-						f.Kind = []string{"err", "break", "missing", "extra", "dup", "swap"}[r.Intn(6)]
+						f.Kind = []string{"err", "break", "missing", "extra", "dup", "swap", "stall"}[r.Intn(7)]
 						f.At = r.Intn(8)
 						if (f.Kind == "extra" || f.Kind == "dup") && r.Bool(0.5) {
 							f.N = r.Range(2, 3)
